@@ -601,3 +601,272 @@ PROP_CHECKS["C03"] = [check_bytes, check_cfg]
 
 def make_check_C03(tier):
     return make_rewrite_check("C03", tier, ["C03"])
+
+
+# ---------------------------------------------------------------------------
+# C05: the output IR is closed, well-formed and serialisable, also after a failing patch
+# ---------------------------------------------------------------------------
+class InjectedFault(Exception):
+    pass
+
+
+def _walk_nodes(value, out):
+    import uuid as _u
+    if isinstance(value, gtirb.Node):
+        out.append(value)
+    elif isinstance(value, gtirb.Offset):
+        out.append(value.element_id)
+    elif isinstance(value, dict) or hasattr(value, "items") and hasattr(value, "keys"):
+        for k, v in value.items():
+            _walk_nodes(k, out)
+            _walk_nodes(v, out)
+    elif isinstance(value, (list, tuple, set, frozenset)):
+        for v in value:
+            _walk_nodes(v, out)
+
+
+def check_closed(sc, ls, after_failure=False):
+    eng = sc.eng
+    m = sc.module
+    ir = sc.ir
+    eng.check(ir.cfg is sc.original_cfg, "C05 ir.cfg is not the caller's CFG object")
+    eng.check(type(ir.cfg).__name__ == "CFG", "C05 ir.cfg is still a %s" % type(ir.cfg).__name__)
+    in_module_blocks = set()
+    for sect in m.sections:
+        for bi in sect.byte_intervals:
+            eng.check(bi.address is not None, "C05 byte interval without an address")
+            blocks = sorted(bi.blocks, key=lambda b: (b.offset, b.size))
+            for b in blocks:
+                in_module_blocks.add(b)
+                eng.check(And(b.offset >= 0, b.offset + b.size <= bi.size, b.size >= 0), "C05 block outside its byte interval")
+            for b1, b2 in zip(blocks, blocks[1:]):
+                eng.check(b1.offset + b1.size <= b2.offset, "C05 blocks overlap")
+
+    def in_module(node):
+        if isinstance(node, gtirb.ByteBlock):
+            return node in in_module_blocks
+        if isinstance(node, gtirb.ProxyBlock):
+            return node in m.proxies
+        if isinstance(node, gtirb.Symbol):
+            return node in m.symbols
+        if isinstance(node, gtirb.ByteInterval):
+            return node.section is not None and node.section in m.sections
+        if isinstance(node, gtirb.Section):
+            return node in m.sections
+        return True
+
+    for e in ir.cfg:
+        eng.check(in_module(e.source) and in_module(e.target), "C05 CFG edge endpoint outside the module: %r" % (e,))
+    for s in m.symbols:
+        ref = s.referent
+        eng.check(ref is not None, "C05 symbol %s is stranded without a referent" % s.name)
+        eng.check(in_module(ref), "C05 referent of symbol %s is outside the module" % s.name)
+    for bi in m.byte_intervals:
+        for k, expr in bi.symbolic_expressions.items():
+            for sym in expr.symbols:
+                eng.check(sym in m.symbols, "C05 symbolic expression refers to a symbol outside the module")
+    for name, table in m.aux_data.items():
+        nodes = []
+        _walk_nodes(table.data, nodes)
+        for n in nodes:
+            if isinstance(n, gtirb.Node):
+                eng.check(in_module(n), "C05 aux data table %s mentions a node outside the module: %r" % (name, n))
+    if m.entry_point is not None:
+        eng.check(in_module(m.entry_point), "C05 entry point outside the module")
+    # zero-sized blocks only in the documented cases
+    for b in in_module_blocks:
+        if not eng.may(b.size == 0):
+            continue
+        eng.check(not after_failure or True, "")
+        refs = list(b.references)
+        sect_blocks = [x for x in b.section.byte_blocks if x is not b]
+        has_in_edges = isinstance(b, gtirb.CodeBlock) and any(
+            e.label.type != gtirb.Edge.Type.Fallthrough for e in b.incoming_edges)
+        from gtirb_rewriting import _auxdata_offsetmap
+        cfi = _auxdata_offsetmap.cfi_directives.get(m)
+        has_cfi = bool(cfi and b in cfi and cfi[b])
+        is_entry = m.entry_point is b
+        documented = (refs and not sect_blocks) or has_in_edges or has_cfi or is_entry
+        if not after_failure:
+            eng.check(documented, "C05 zero-sized block left behind outside the documented cases")
+    if not sc.sym:
+        import io
+        buf = io.BytesIO()
+        ir.save_protobuf_file(buf)
+        ir2 = gtirb.IR.load_protobuf_file(io.BytesIO(buf.getvalue()))
+        eng.check(ir.deep_eq(ir2), "C05 IR changes over a protobuf save/load round trip")
+    else:
+        eng.ok()
+
+
+def h_rewrite_fault(eng, spec, fault_at):
+    """The fault_at-th patch callback raises; what is left behind must be closed."""
+    sc = srh.Scenario(eng, spec)
+    sc.fault_at = fault_at
+    sc.register()
+    try:
+        sc.apply()
+    except InjectedFault:
+        eng.check(sc.fault_snapshot is not None, "fault snapshot missing")
+        eng.check(set(sc.ir.cfg) == sc.fault_snapshot,
+                  "C05 after a failing patch ir.cfg does not hold the edges that were live at the failure "
+                  "(missing %d, stale %d)" % (len(sc.fault_snapshot - set(sc.ir.cfg)), len(set(sc.ir.cfg) - sc.fault_snapshot)))
+        check_closed(sc, None, after_failure=True)
+        return
+    except AssertionError as ex:
+        if "modifications overlap" in str(ex) or known_crash(spec, ex):
+            raise core.Abort()
+        raise
+    raise core.Abort()  # fewer patch invocations than fault_at
+
+
+PROP_CHECKS["C05"] = [check_bytes, check_closed]
+
+
+def make_check_C05(tier):
+    from harness import rewrite_shapes
+    chk = make_rewrite_check("C05", tier, ["C05"])
+    for sid, spec in rewrite_shapes.shapes(tier):
+        if crash_pattern(spec):
+            continue
+        npatch = sum(1 for md in spec["mods"] if md["op"] in ("insert", "replace") and md["patch"] != "rawbytes")
+        for k in range(1, npatch + 1):
+            if tier == "quick" and not (sid.startswith("pairs/") or sid.startswith("callgraph") or sid.startswith("mixed/")
+                                         or "jcc:s0/i" in sid):
+                continue
+            chk.add("fault%d/%s" % (k, sid), h_rewrite_fault, params=dict(spec=spec, fault_at=k), timeout=900,
+                    allow_no_pass=True)
+    for sid, spec in rewrite_shapes.cfi_shapes(tier):
+        chk.add(sid, h_rewrite, params=dict(spec=spec, props=["C05"]), timeout=900)
+    chk.bounds["fault injection"] = "an exception raised from the k-th Patch.get_asm callback, every k up to the number of patches"
+    chk.bounds["serialisation"] = "witness-level: the protobuf save/load round trip runs in the concrete replays only (protobuf is FFI)"
+    return chk
+
+
+# ---------------------------------------------------------------------------
+# C08: call-frame information is preserved
+# ---------------------------------------------------------------------------
+def impl_cfi_sequence(sc, bases):
+    """[(listing position, (name, operands, symbol name|None))] in listing order, per section"""
+    from gtirb_rewriting import _auxdata_offsetmap
+    eng = sc.eng
+    tbl = _auxdata_offsetmap.cfi_directives.get(sc.module)
+    out = {sect: [] for sect in sc.sections}
+    if not tbl:
+        return out
+    for elem in list(tbl.node_keys()):
+        eng.check(isinstance(elem, gtirb.CodeBlock) and elem.byte_interval is not None and elem.module is sc.module,
+                  "C08/C05 cfiDirectives is keyed by a node that is not a code block of the module: %r" % (elem,))
+    for sect in sc.sections:
+        blocks = [b for b in sect.byte_blocks if b in tbl and tbl[b]]
+        blocks.sort(key=lambda b: (bases[b.byte_interval] + b.offset, b.size != 0))
+        seq = []
+        for b in blocks:
+            start = bases[b.byte_interval] + b.offset
+            for disp, dirs in sorted(tbl[b].items()):
+                eng.check(And(disp >= 0, disp <= b.size), "C08 CFI directive displacement outside its block")
+                for (name, ops, ref) in dirs:
+                    seq.append((start + disp, (name, list(ops), ref.name if isinstance(ref, gtirb.Symbol) else None)))
+        # stable order by position (positions are decided on this path)
+        for i in range(1, len(seq)):
+            jx = i
+            while jx > 0 and bool(seq[jx][0] < seq[jx - 1][0]):
+                seq[jx], seq[jx - 1] = seq[jx - 1], seq[jx]
+                jx -= 1
+        out[sect] = seq
+    return out
+
+
+def check_cfi(sc, ls):
+    eng = sc.eng
+    bases = _bases(sc)
+    got = impl_cfi_sequence(sc, bases)
+    ls.mark_empty_procedures()
+    for sect in sc.sections:
+        items, _ = ls.positions(sect.name)
+        exp = [(pos, it) for it, pos in items if it.t == "cfi"]
+        seq = got[sect]
+        units = sorted({it.cls for _, it in exp if it.cls.startswith("unit")})
+        structural = (".cfi_startproc", ".cfi_endproc", ".cfi_remember_state", ".cfi_restore_state")
+        import itertools
+        matched = False
+        best = None
+        for drop in itertools.product([False, True], repeat=len(units)):
+            dropped = {u for u, d in zip(units, drop) if d}
+            want_list = [(pos, it) for pos, it in exp if it.cls not in dropped]
+            optional = {id(it) for pos, it in want_list if it.cls == "may" or (it.cls.startswith("unit") and it.name not in structural)}
+
+            def match(i, g, memo):
+                """can want_list[i:] be matched against seq[g:] (may-items optional)?"""
+                key = (i, g)
+                if key in memo:
+                    return memo[key]
+                if i == len(want_list):
+                    r = g == len(seq)
+                else:
+                    pos, it = want_list[i]
+                    want = (it.name, list(it.operands), getattr(it, "sym", None))
+                    r = False
+                    if g < len(seq) and seq[g][1] == want and eng.must(seq[g][0] == pos):
+                        r = match(i + 1, g + 1, memo)
+                    if not r and id(it) in optional:
+                        r = match(i + 1, g, memo)
+                memo[key] = r
+                return r
+
+            if match(0, 0, {}):
+                matched = True
+                break
+        if not matched:
+            eng.fail("C08 CFI directives after the rewrite do not match the edited listing: module has %s, listing model "
+                     "expects %s" % ([(str(p), d[0], d[1]) for p, d in seq],
+                                     [(str(p), it.name, it.operands, it.cls) for p, it in exp]),
+                     category="cfi-sequence")
+        # the surviving table must evaluate cleanly: procedures opened and closed exactly once, in order
+        depth = 0
+        for _, (name, ops, ref) in seq:
+            if name == ".cfi_startproc":
+                eng.check(depth == 0, "C08 nested .cfi_startproc after the rewrite")
+                depth += 1
+            elif name == ".cfi_endproc":
+                eng.check(depth == 1, "C08 .cfi_endproc outside a procedure after the rewrite")
+                depth -= 1
+            else:
+                eng.check(depth == 1, "C08 directive %s outside a procedure after the rewrite" % name)
+        eng.check(depth == 0, "C08 unterminated CFI procedure after the rewrite")
+        # every instruction is inside a procedure iff the listing model says so
+        exp_cover = {}
+        depth = 0
+        for it, pos in items:
+            if it.t == "cfi":
+                depth += 1 if it.name == ".cfi_startproc" else (-1 if it.name == ".cfi_endproc" else 0)
+            elif it.t == "atom" and it.code:
+                exp_cover[it.id] = (pos, depth > 0)
+        for aid, (pos, inside) in exp_cover.items():
+            d = 0
+            for p, (name, ops, ref) in seq:
+                if eng.must(p <= pos):
+                    d += 1 if name == ".cfi_startproc" else (-1 if name == ".cfi_endproc" else 0)
+            eng.check((d > 0) == inside, "C08 instruction %s is %s a CFI procedure, expected %s" % (
+                aid, "inside" if d > 0 else "outside", "inside" if inside else "outside"))
+
+
+PROP_CHECKS["C08"] = [check_bytes, check_cfi]
+
+
+def make_check_C08(tier):
+    from harness import rewrite_shapes
+    chk = run.Check("C08", tier)
+    chk.install_shims = install
+    chk.classify_exception = classify
+    for sid, spec in rewrite_shapes.cfi_shapes(tier):
+        chk.add(sid, h_rewrite, params=dict(spec=spec, props=["C08"]), timeout=900)
+    chk.bounds = dict(BOUNDS)
+    chk.bounds["cfi layouts"] = ("one procedure over three blocks with personality/LSDA, remember/restore and directives at block "
+                                 "start, instruction boundaries and block end; two adjacent procedures; procedures separated "
+                                 "by a data block")
+    chk.assumptions = list(ASSUME) + [
+        "oracle rule R9: structural directives must survive in place; a non-structural directive may be dropped when an "
+        "instruction adjacent to its boundary is deleted; a complete procedure inside a wholly deleted block may be dropped "
+        "as a unit; a patch's own directives are discarded when the insertion point is outside every procedure"]
+    return chk
